@@ -1,5 +1,5 @@
 # replay of a bounded stand-in violation (C16): re-run native/c16_states.py
 import sys
-print('n=2 pure=True gaussian: quad_expectation(1,0.0) = [-0.02294, 0.594] on fock, [0.62239, 0.64302] on gaussian')
+print('n=2 pure=False cat: quad_expectation(1,0.8) = [0.51137, 0.96552] on bosonic, [0.51137, 1.84019] on fock')
 print('REPLAY-VIOLATION')
 sys.exit(1)
